@@ -500,8 +500,9 @@ func (e *Engine) headStates(pc *passCtx, b *ssa.BasicBlock, fwd map[edge][]*Stat
 		return out
 	}
 	type incoming struct {
-		st   *State
-		pred *ssa.BasicBlock
+		st      *State
+		pred    *ssa.BasicBlock
+		foreign bool // first trip round the loop of a peeled lineage: not an iteration of this head
 	}
 	hk := [2]int{fr.id, b.Index}
 	maxLin := e.Cfg.K / 2
@@ -511,6 +512,9 @@ func (e *Engine) headStates(pc *passCtx, b *ssa.BasicBlock, fwd map[edge][]*Stat
 	if maxLin < 1 {
 		maxLin = 1
 	}
+	// peeling: the states that come round the loop get head states of their own
+	// (lineage + maxLin), so "first time here" and "came round" stay distinguishable
+	peel := e.Cfg.Peel && len(fr.fn.Blocks) <= 60
 	byLin := map[int][]incoming{}
 	var lins []int
 	nEntry := 0
@@ -529,7 +533,7 @@ func (e *Engine) headStates(pc *passCtx, b *ssa.BasicBlock, fwd map[edge][]*Stat
 			}
 			nEntry++
 			s2.lins[hk] = l
-			addIn(l, incoming{s2, nil})
+			addIn(l, incoming{s2, nil, false})
 		}
 	}
 	for _, p := range b.Preds {
@@ -544,7 +548,7 @@ func (e *Engine) headStates(pc *passCtx, b *ssa.BasicBlock, fwd map[edge][]*Stat
 			}
 			nEntry++
 			s2.lins[hk] = l
-			addIn(l, incoming{s2, p})
+			addIn(l, incoming{s2, p, false})
 		}
 	}
 	for _, p := range b.Preds {
@@ -554,6 +558,19 @@ func (e *Engine) headStates(pc *passCtx, b *ssa.BasicBlock, fwd map[edge][]*Stat
 		for _, st := range pc.back[edge{p, b}] {
 			s2 := st.clone()
 			l := s2.lins[hk]
+			if peel {
+				foreign := false
+				if l < maxLin {
+					l += maxLin
+					foreign = true
+				}
+				if _, ok := byLin[l-maxLin]; ok || !foreign {
+					s2.lins[hk] = l
+					addIn(l, incoming{s2, p, foreign})
+					continue
+				}
+				l -= maxLin
+			}
 			if _, ok := byLin[l]; !ok {
 				// back-edge state of a lineage that has no entry this pass: attach to the first lineage
 				if len(lins) > 0 {
@@ -561,7 +578,7 @@ func (e *Engine) headStates(pc *passCtx, b *ssa.BasicBlock, fwd map[edge][]*Stat
 					s2.lins[hk] = l
 				}
 			}
-			addIn(l, incoming{s2, p})
+			addIn(l, incoming{s2, p, false})
 		}
 	}
 	sort.Ints(lins)
@@ -580,8 +597,10 @@ func (e *Engine) headStates(pc *passCtx, b *ssa.BasicBlock, fwd map[edge][]*Stat
 		var pend []pendDef
 		var sts []*State
 		var isBack []bool
+		var isForeign []bool
 		var phiSteps [][]phiStep
 		for _, in := range ins {
+			isForeign = append(isForeign, in.foreign)
 			if in.pred != nil {
 				e.curFr, e.curIns = fr, b
 				steps := e.bindPhis(in.st, fr, in.pred, b, true, l, &pend)
@@ -661,14 +680,15 @@ func (e *Engine) headStates(pc *passCtx, b *ssa.BasicBlock, fwd map[edge][]*Stat
 			}
 			if len(keepIdx) < len(sts) {
 				var ns []*State
-				var nb []bool
+				var nb, nf []bool
 				var nps [][]phiStep
 				for _, i := range keepIdx {
 					ns = append(ns, sts[i])
 					nb = append(nb, isBack[i])
+					nf = append(nf, isForeign[i])
 					nps = append(nps, phiSteps[i])
 				}
-				isBack, phiSteps = nb, nps
+				isBack, isForeign, phiSteps = nb, nf, nps
 				for pi := range pend {
 					if len(pend[pi].exp) == len(sts) {
 						var ne []Lin
@@ -713,6 +733,9 @@ func (e *Engine) headStates(pc *passCtx, b *ssa.BasicBlock, fwd map[edge][]*Stat
 		var backs []backStep
 		for wi, oi := range info.kept {
 			if oi < len(isBack) && isBack[oi] && wi < len(info.work) {
+				if isForeign[oi] {
+					continue // the peeled first trip: finitely many, no ranking needed
+				}
 				if e.exitsAtHead(info.work[wi], fr, b) {
 					continue // this back-edge state leaves the loop at the header test: not an iteration
 				}
@@ -1302,21 +1325,53 @@ func (e *Engine) joinAllDefs(ss []*State, fr *Frame, where string, head bool, pe
 			cand[l.Key()] = l
 		}
 	}
-	// (b) rewritten through z = x + k
-	for _, d := range defs {
-		for i, w := range work {
-			if i >= len(d.exp) {
-				continue
-			}
-			ex := d.exp[i]
-			if len(ex.T) != 1 || ex.T[0].K != 1 {
-				continue
-			}
-			s := ex.T[0].S
-			rep := V(d.z).AddK(-ex.C)
-			for _, c := range w.cons {
-				if c.Has(s) {
-					addCand(c.Subst(s, rep))
+	// (b) rewritten through z = x + k — composed: a constraint rewritten through one
+	// definition is rewritten again through the others (z1 = x + y + 1 with z2 = x,
+	// z3 = y becomes z1 = z2 + z3 + 1)
+	{
+		rounds := 1
+		if len(defs) <= 12 {
+			rounds = 2
+		}
+		extra := make([][]Lin, len(work))
+		seenX := make([]map[string]bool, len(work))
+		for i := range work {
+			seenX[i] = map[string]bool{}
+		}
+		for round := 0; round < rounds; round++ {
+			for _, d := range defs {
+				for i, w := range work {
+					if i >= len(d.exp) {
+						continue
+					}
+					ex := d.exp[i]
+					if len(ex.T) != 1 || ex.T[0].K != 1 {
+						continue
+					}
+					s := ex.T[0].S
+					rep := V(d.z).AddK(-ex.C)
+					rewrite := func(c Lin) {
+						if !c.Has(s) || c.Has(d.z) {
+							return
+						}
+						nc := c.Subst(s, rep)
+						k := nc.Key()
+						if seenX[i][k] || len(extra[i]) > 300 {
+							return
+						}
+						seenX[i][k] = true
+						extra[i] = append(extra[i], nc)
+						addCand(nc)
+					}
+					if round == 0 {
+						for _, c := range w.cons {
+							rewrite(c)
+						}
+					}
+					n := len(extra[i])
+					for _, c := range extra[i][:n] {
+						rewrite(c)
+					}
 				}
 			}
 		}
